@@ -252,6 +252,11 @@ func c10Run(c c10Case) (err error) {
 	return nil
 }
 
+// c10Pool: the shared pool plus letters whose title-case and upper-case forms
+// differ (the digraphs U+01C4..U+01CC, U+01F1..U+01F3): "ǅemal" is the
+// title-cased twin of both "ǆemal" and "Ǆemal", and "Ǆemal" is nobody's twin.
+var c10Pool = append(append([]string{}, gen.WordPool...), "ǅemal", "Ǆemal", "ǳeta", "ǲeta", "Ǳeta", "ǌegos", "ǋegos")
+
 func TestC10(t *testing.T) {
 	if !requireHooks(t) {
 		return
@@ -262,7 +267,7 @@ func TestC10(t *testing.T) {
 		if n == 0 {
 			return c10Case{}
 		}
-		c := c10Case{Words: gen.WordList(t, gen.WordListOpts{Min: 1, Max: 12}), Len: rapid.IntRange(1, 6).Draw(t, "len")}
+		c := c10Case{Words: gen.WordList(t, gen.WordListOpts{Min: 1, Max: 12, Pool: c10Pool}), Len: rapid.IntRange(1, 6).Draw(t, "len")}
 		for i := 0; i < K; i++ {
 			c.Perms = append(c.Perms, gen.Perm(t, len(c.Words), "perm"))
 		}
